@@ -397,6 +397,7 @@ def run_session(ctx, mutable, defs, steps=None, nsteps=30, tag="random", sigma="
             except Exception:  # noqa: BLE001
                 return
         names = sorted(OPS)
+        snaps = None      # snapshots after the previous call = snapshots before the next one
         i = 0
         while True:
             if steps is not None:
@@ -424,7 +425,7 @@ def run_session(ctx, mutable, defs, steps=None, nsteps=30, tag="random", sigma="
                         "start": rng.choice([None, w])}
             i += 1
             operands = [pool[j] for j in idxs]
-            before = [snap_obj(m) for m in pool]
+            before = snaps if snaps is not None else [snap_obj(m) for m in pool]
             raised = None
             result = None
             try:
@@ -451,18 +452,30 @@ def run_session(ctx, mutable, defs, steps=None, nsteps=30, tag="random", sigma="
                     {"kind": "session", "mutable": mutable, "defs": [list(d) for d in defs], "steps": done,
                      "sigma": sigma, "changed": changed, "before": repr(before[j]), "after": repr(after[j]), "tag": tag})
                 return
+            snaps = after
             if kind_of(result) and n_states(result) <= 14 and len(pool) < 14:
                 pool.append(result)
+                snaps = after + [snap_obj(result)]
 
 
-def bounded_read(m, w, budget=40):
-    out = []
+def bounded_read(m, w, budget):
+    """Drive read_input_stepwise for at most `budget` steps (and stop when a yielded set of
+    configurations grows beyond 150). True iff the run ended by itself within those limits."""
+    it = m.read_input_stepwise(w)
     try:
-        for c in itertools.islice(m.read_input_stepwise(w), budget):
-            out.append(c)
-    except Exception as e:  # noqa: BLE001
-        return type(e).__name__
-    return len(out)
+        for _ in range(budget):
+            c = next(it)
+            if isinstance(c, (set, frozenset, list)) and len(c) > 150:
+                return False
+    except StopIteration:
+        return True
+    except Exception:  # noqa: BLE001 - rejection etc.
+        return True
+    finally:
+        close = getattr(it, "close", None)
+        if close:
+            close()
+    return False
 
 
 def check_machine_reads(ctx, cname, cls, kwargs_repr, mutable, words, tag):
@@ -473,14 +486,15 @@ def check_machine_reads(ctx, cname, cls, kwargs_repr, mutable, words, tag):
         except Exception:  # noqa: BLE001
             return
         before = snap_obj(m)
+        budget = 40 if cname in ("DPDA", "DTM") else 12
         for w in words:
-            calls = [("read_input_stepwise", lambda: bounded_read(m, w))]
-            if bounded_read(m, w) != 40:
+            calls = [("read_input_stepwise", lambda: bounded_read(m, w, budget))]
+            if bounded_read(m, w, budget):
                 # the run ends within the budget, so the unbounded entry points terminate too
                 calls += [("read_input", lambda: m.read_input(w)), ("accepts_input", lambda: m.accepts_input(w)),
                           ("in", lambda: w in m)]
             if cname == "MNTM":
-                calls.append(("read_input_as_ntm", lambda: len(list(itertools.islice(m.read_input_as_ntm(w), 40)))))
+                calls.append(("read_input_as_ntm", lambda: len(list(itertools.islice(m.read_input_as_ntm(w), 25)))))
             if cname in ("DPDA", "NPDA"):
                 calls.append(("iter_transitions", lambda: list(m.iter_transitions())))
             calls.append(("validate", lambda: m.validate()))
@@ -551,11 +565,14 @@ def run(ctx):
     if batch:
         check_freeze(ctx, batch, "random")
 
+    import time
+    t_a = time.time()
+    ctx.notes.append(f"phase (a) freeze_value: {t_a - ctx.t0:.1f}s")
     # (b) objects
     for cname, kr in corner_defs():
         for mutable in (False, True):
             check_object(ctx, cname, by_name[cname][1], kr, mutable, "corner")
-    nobj = ctx.n(40, 600)
+    nobj = ctx.n(40, 400)
     for cname, cls, mk in table:
         for i in range(nobj):
             d = mk(rng)
@@ -563,8 +580,10 @@ def run(ctx):
                 d2 = g.vary_def(rng, d, 0.0 if mutable else 0.5)
                 check_object(ctx, cname, cls, repr(d2), mutable, "random")
 
+    t_b = time.time()
+    ctx.notes.append(f"phase (b) objects: {t_b - t_a:.1f}s")
     # (c) sessions on FAs
-    nsess = ctx.n(60, 900)
+    nsess = ctx.n(70, 600)
     for s in range(nsess):
         sigma = rng.choice(["a", "ab", "ab", "abc"])
         names = rng.choice([["q%d" % i for i in range(6)], list(range(6)), [(i, "x") for i in range(6)]])
@@ -574,9 +593,11 @@ def run(ctx):
         for _ in range(rng.choice([2, 3])):
             defs.append(("NFA", repr(gen.rand_nfa_def(rng, nmax=4, alphabet=sigma, names=names))))
         for mutable in (False, True):
-            run_session(ctx, mutable, defs, nsteps=ctx.n(40, 60), sigma=sigma)
+            run_session(ctx, mutable, defs, nsteps=ctx.n(40, 50), sigma=sigma)
+    t_c = time.time()
+    ctx.notes.append(f"phase (c) sessions: {t_c - t_b:.1f}s")
     # PDA / TM reads
-    nm = ctx.n(25, 300)
+    nm = ctx.n(25, 200)
     for cname in ("DPDA", "NPDA", "DTM", "NTM", "MNTM"):
         cls, mk = by_name[cname][1], by_name[cname][2]
         for i in range(nm):
@@ -585,6 +606,7 @@ def run(ctx):
             words = [""] + [gen.rand_word(rng, sig, 5) for _ in range(3)]
             for mutable in (False, True):
                 check_machine_reads(ctx, cname, cls, repr(d), mutable, words, "random")
+    ctx.notes.append(f"phase (c) machine reads: {time.time() - t_c:.1f}s")
     # the option flags are what they were
     import automata.base.config as cfg
     if cfg.allow_mutable_automata is not False or cfg.should_validate_automata is not True:
